@@ -10,7 +10,7 @@
    (cancelling() = 1, it was 0 on entry), nothing is pending (_must_cancel = false, no exception held), no result
    of any step was a native cancellation, and the task checkpoints undisturbed. *)
 From AV Require Import Base Machine.
-Open Scope Z_scope.
+Local Open Scope Z_scope.
 
 Definition f19_case : list Z :=
   [30; 0; 0; 0;  0; 1; -1; 0;  1; 1; 1; 0;  17; 1; -1; 0;  32; 1; 0; 0;  35; 1; 0; 0;  31; 1; 0; 0;  34; 1; 0; 0;
